@@ -1,20 +1,25 @@
 ------------------------------ MODULE MC_C04 ------------------------------
-(* C04 ledger, specification side: all histories of <= MaxOps constructor / release steps over 3 object slots. *)
+(* C04 ledger, specification side: all histories of <= MaxOps constructor / grow / release steps over 3 object slots, *)
+(* every observed block count 0..2 the ledger allows.                                                                *)
 EXTENDS XrlHeap
 CONSTANTS MaxOps
 VARIABLES st, live, n
 Ids == 0..2
-Kinds == {"compound", "nuclide", "crystal", "list", "string"}
+Kinds == {"compound", "crystal"}
+D == 0 - 2 .. 2
 Init == st = [own |-> [i \in Ids |-> 0], pending |-> 0] /\ live = 0 /\ n = 0
-Event == [op : {"Make"}, id : Ids, kind : Kinds, n : {2}, ok : {0, 1}, slot : {0, 1}, err : {0, 1}]
-         \cup [op : {"Free"}, id : Ids, kind : {"none"}, n : {0}, ok : {1}, slot : {0}, err : {0}]
-         \cup [op : {"ClearError"}, id : {0}, kind : {"none"}, n : {0}, ok : {1}, slot : {1}, err : {0}]
-Legal(ev) == /\ ProtocolOK(ev)
-             /\ (ev.op = "Make" => st.own[ev.id] = 0 /\ (ev.err = 1 => st.pending = 0))
+Event == [op : {"Make", "Crystal_AddCrystal"}, id : Ids, kind : Kinds, ok : {0, 1}, slot : {0, 1}, err : {0, 1}, d : D]
+         \cup [op : {"Call"}, id : {0}, kind : {"none"}, ok : {0, 1}, slot : {0, 1}, err : {0, 1}, d : D]
+         \cup [op : {"Free"}, id : Ids, kind : {"none"}, ok : {1}, slot : {0}, err : {0}, d : D]
+         \cup [op : {"ClearError"}, id : {0}, kind : {"none"}, ok : {1}, slot : {1}, err : {0}, d : D]
+Legal(ev) == /\ ProtocolOK(ev) /\ DeltaWhy(st, ev) = ""
+             /\ (ev.op = "Make" => st.own[ev.id] = 0)
+             /\ (ev.op = "Crystal_AddCrystal" => st.own[ev.id] > 0)
+             /\ (ev.op \in {"Make", "Crystal_AddCrystal", "Call"} /\ ev.err = 1 => st.pending = 0)
              /\ (ev.op = "Free" => st.own[ev.id] > 0)              \* release exactly once: a second release is not a legal step
              /\ (ev.op = "ClearError" => st.pending > 0)
-Next == n < MaxOps /\ \E ev \in Event : Legal(ev) /\ st' = HeapStep(st, ev) /\ live' = live + Delta(st, ev) /\ n' = n + 1
+Next == n < MaxOps /\ \E ev \in Event : Legal(ev) /\ st' = HeapStep(st, ev) /\ live' = live + ev.d /\ n' = n + 1
 LedgerInv == live = Ledger(st) /\ live >= 0
-\* everything can always be released: from any state the all-released state is reachable by Free/ClearError steps only
+\* once everything the caller owns has been released nothing is held
 Drained == (Owned(st) = {} /\ st.pending = 0) => live = 0
 ===========================================================================
